@@ -75,8 +75,11 @@ def run(ctx):
                         text = open(path).read() if e is None else None
                         c2, e2 = (None, e) if e is not None else call(cgio.from_file, path, A.name, None, bbs_of(cg, A))
                 else:
-                    text, e = call(cgio.circuit_to_verilog, c, behavioral)
+                    _first, e = call(cgio.circuit_to_verilog, c, behavioral)
+                    # the same circuit object written a second time must give a text with the same meaning
+                    text, e = (None, e) if e is not None else call(cgio.circuit_to_verilog, c, behavioral)
                     c2, e2 = (None, e) if e is not None else call(cgio.verilog_to_circuit, text, A.name, False, bbs_of(cg, A))
+                ctx.unchanged("circuit_to_verilog", c, spec)
                 det["text"] = text[:1500] if text else None
                 if e is not None:
                     ctx.side("writer-raises", False, f"verilog-writer:raises:{type(e).__name__}", f"circuit_to_verilog raised {e!r}", det)
